@@ -1,6 +1,8 @@
 //! Drivers for the byte-search properties: C01 (forward), C02 (reverse),
 //! C07 (count), C06 (iterators).
 
+#[allow(unused_imports)]
+use crate::prelude::*;
 use crate::case::{Api, Be, Fam};
 use crate::exec::{be_available, typed_backends};
 use crate::mem::{standard_places, Place};
@@ -135,7 +137,7 @@ pub fn byte_apis(r: &Runner, rev: bool, raw_forms: bool) -> Vec<Api> {
 /// C01 / C02: the complete grid length x placement x match position.
 pub fn find_grid(r: &mut Runner, rev: bool) {
     let (maxlen, full_places, variants, full_needles) = match r.tier {
-        Tier::Quick => (200usize, false, 2usize, false),
+        Tier::Quick => (272usize, false, 2usize, false),
         Tier::Thorough => (451, true, 4, true),
         Tier::Miri => (0, false, 1, false),
     };
